@@ -40,6 +40,7 @@ KEY_GENSEQ = "generateSequences-collector-survives"
 KEY_LOCALDICT = "localdict-cdict-stale-params"
 KEY_CONTIG = "dict-contiguous-with-src"
 KEY_RAWFB = "block-raw-fallback-outcap"
+KEY_CDREF = "cdict-byref-contiguous-ignores-deterministic-switch"
 R2_WHAT = {
     KEY_GENSEQ: "ZSTD_generateSequences leaves cctx->seqCollector armed: every later frame of the context is stored as raw blocks "
                 "(and its sequences are written into the previous caller's array)",
@@ -47,6 +48,9 @@ R2_WHAT = {
                    "change the next frame is compressed with the old cParams (output depends on the context's history)",
     KEY_CONTIG: "the output depends on the address of the caller's buffers: a prefix / raw dictionary that ends exactly where the "
                 "input starts is searched as contiguous prefix instead of extDict (documented: ZSTD_c_deterministicRefPrefix, default 0)",
+    KEY_CDREF: "a dictionary held by reference that ends exactly where the input starts: when the frame copies the CDict the window "
+               "continues the dictionary as contiguous prefix, and ZSTD_c_deterministicRefPrefix=1 does not prevent it "
+               "(ms->forceNonContiguous is only set on the load path)",
     KEY_RAWFB: "one-shot output depends on dstCapacity: ZSTD_entropyCompressSeqStore stores a block raw when the entropy stage "
                "reports dstSize_tooSmall while srcSize <= dstCapacity, although the block compresses with a few more bytes of room",
 }
@@ -1230,6 +1234,126 @@ def extra_lockstep(ctx, model, per_group, report):
     return n_ok
 
 
+
+def r2_lockstep(ctx, model, results, report, rng):
+    """round 2: (a) every API call of every non-MT script against Det/ApiState.v (accepted, stage, localDict.dict,
+    localDict.cdict, cctx->cdict, prefixDict.dict, collectSequences after the call); (b) the capacity sweeps against
+    RawFallback.emit_block (shape E* R* =*: the raw window starts exactly at header + 3 + srcSize; its end is the one fitted
+    quantity); (c) ZSTD_minGain; (d) the window of the placement groups against Window.window_update"""
+    cases, meta = [], []
+    n_env = 0
+    for g, res in results:
+        if getattr(g, "mt", False):
+            continue
+        rc, out, err, script = res
+        cur = {}        # ctx -> (ops, observed)
+
+        def flush(c):
+            ops, obs = cur.pop(c, ([], []))
+            if ops:
+                cases.append((13, [x for o in ops for x in o]))
+                meta.append(("api", g, c, ops, obs))
+        for l in out.split("\n"):
+            t = l.split(" ")
+            if t[0] == "S" and len(t) == 12:
+                try:
+                    v = [int(x) for x in t[1:]]
+                except ValueError:
+                    continue
+                c, code, a, b, okc = v[0], v[1], v[2], v[3], v[4]
+                st = v[5:11]
+                if code == 0:
+                    flush(c)
+                    cur[c] = ([], [])
+                    cur[c][1].append(None)        # placeholder: state right after creation
+                    cur[c][1].pop()
+                    continue
+                if c not in cur:
+                    continue                      # unsynced after a failed frame
+                if code == 20:
+                    flush(c)
+                    continue
+                ops, obs = cur[c]
+                if not okc and code in (1, 2, 3):
+                    # a refusal for a reason outside the model (bounds, static memory) while the stage would allow the call:
+                    # not part of the API-state history
+                    prev = obs[-1][1] if obs else [0, 0, 0, 0, 0, 0]
+                    if prev[0] == 0 and not (code == 2 and prev[3] == 1):
+                        n_env += 1
+                        continue
+                ops.append((code, a, b))
+                obs.append((okc, st))
+            elif t[0] == "W" and len(t) >= 12 and t[11] != "-":
+                o, ln, r0, nerr, ndiff, fcap, fsize, nraw, hsz, strat = (int(x) for x in t[1:11])
+                cls = t[11]
+                ovh = hsz + 3
+                if "X" in cls:
+                    continue            # reported by judge_wsweep
+                ref_raw = (r0 == ovh + ln)
+                csize = ln if ref_raw else r0 - ovh
+                if "=" not in cls:
+                    continue
+                need = cls.index("=") + r0 - ovh
+                for k, ch in enumerate(cls):
+                    cases.append((14, [csize, need, ln, strat, r0 + k - hsz]))
+                    meta.append(("emit", g, (o, ln, r0, k, ch, ref_raw), None, None))
+        for c in list(cur):
+            flush(c)
+        if getattr(g, "contig_geom", None):
+            fr0 = parse_output(out)[0]
+            for fid, n, m, adj, force in g.contig_geom:
+                d = (fr0.get(fid) or {}).get("dump")
+                if d is None or n < 8 or m == 0:
+                    continue
+                D = 5000
+                S = D + n if adj else D + n + 100000
+                cases.append((16, [100, D, n, S, m, force]))
+                meta.append(("geom", g, (fid, n, m, adj, force, [d["dl"], d["ll"], d["idx"]]), None, None))
+    # ZSTD_minGain through the real decision: covered by (b); plus the window of the placement groups
+    rs = model.run(cases)
+    n_ok = 0
+    for (kind, g, c, ops, obs), r in zip(meta, rs):
+        ctx.cov["traces_validated_against_impl"] += 1
+        if kind == "api":
+            bad = None
+            if len(r) != 7 * len(ops):
+                bad = dict(what="model output length", got=len(r), ops=len(ops))
+            else:
+                for i, (okc, st) in enumerate(obs):
+                    pr = r[7 * i:7 * i + 7]
+                    if st[0] < 0:
+                        continue
+                    if pr != [okc] + st:
+                        bad = dict(call=i, op=ops[i], predicted=pr, observed=[okc] + st, ops=ops[max(0, i - 6):i + 1])
+                        break
+            ctx.count(("lockstep-api", min(len(ops), 12), tuple(sorted(set(o[0] for o in ops))), bad is None), nontrivial=len(ops) > 3)
+            if bad:
+                report("lockstep", g, dict(model="ApiState.astep (accepted stage ldict lcdict cdict prefix collect)", ctx=c, detail=bad))
+            else:
+                n_ok += 1
+        elif kind == "geom":
+            fid, n, m, adj, force, obs3 = c
+            pred = [r[0], r[1], r[4]]
+            ok = pred == obs3
+            ctx.count(("lockstep-window-placement", adj, force, ok), nontrivial=True)
+            if not ok:
+                report("lockstep", g, dict(model="Window.window_update: dictLimit lowLimit end-index after prefix + input", fid=fid,
+                                           prefix=n, input=m, adjacent=adj, forced=force, predicted=pred, observed=obs3))
+            else:
+                n_ok += 1
+        else:
+            o, ln, r0, k, ch, ref_raw = c
+            want = {"E": 0, "R": 1, "=": 1 if ref_raw else 2}[ch]
+            ok = (r[0] == want)
+            ctx.count(("lockstep-emit", ch, ref_raw, ok), nontrivial=True)
+            if not ok:
+                report("lockstep", g, dict(model="RawFallback.emit_block (0 refused, 1 raw, 2 compressed)", input=(o, ln), capacity=r0 + k,
+                                           predicted=r, observed=ch))
+            else:
+                n_ok += 1
+    ctx.notes["r2_env_refusals"] = n_env
+    return n_ok
+
 def mt_checks(ctx, model, g, frames, dumps, report):
     """MT groups: job lists of all variants against each other and against the model's never-blocking schedule"""
     t = g.t
@@ -1565,6 +1689,9 @@ def r2_groups(rng, gid0, inputs, dicts, tiny, quick):
             g.variants = [(1001, "ref", "eq", dict(ctx="heapz", hist=[])), (1002, "prefix-adjacent", "eq", dict(ctx="heapz", hist=["contig-prefix"]))]
             g.det_pair = (1003, 1004)
             g.narrow = ("same-as", 1001, 1003)      # the non-adjacent placement does not care about the switch
+            g.lines[g.lines.index("trace 0")] = "trace 1"
+            # (fid, prefix size, input size, adjacent, forced): the window the real context ends with <-> Window.window_update
+            g.contig_geom = [(1001, dl, src[1], 0, 0), (1002, dl, src[1], 1, 0), (1003, dl, src[1], 0, 1), (1004, dl, src[1], 1, 1)]
         else:
             t = Target("udict", src, level=lv, dct=("dict", d[0], dl), bias="r2-contig")
             g = mk(t, KEY_CONTIG)
@@ -1572,6 +1699,72 @@ def r2_groups(rng, gid0, inputs, dicts, tiny, quick):
             g.lines += t.lines(0, 1001, sa=sa0 + dl)
             g.lines += ["F 1 1002 %d %d %d 0 0 udictc %d %d %d" % (src[0], src[1], sa0 + dl, lv, d[0], dl)]
             g.variants = [(1001, "ref", "eq", dict(ctx="heapz", hist=[])), (1002, "dict-adjacent", "eq", dict(ctx="heapz", hist=["contig-dict"]))]
+    # (3b) a dictionary by reference right in front of the input, the frame copies the CDict, the deterministic switch is ON
+    for rep in range(8 if quick else 24):
+        src = rng.choice(texts)
+        d = rng.choice(rawd)
+        dl = min(d[1], rng.choice([20000, 30000]))
+        lv = rng.choice([3, 4, 4, 13] if src[1] <= 40000 else [3, 4])
+        sa0 = rng.choice([0, 64, 4096 + 13])
+        pp = {"level": lv, "deterministicRefPrefix": 1, "forceAttachDict": 2}
+        t = Target("c2", src, params=pp, dct=("load", d[0], dl, 1, 0), bias="r2-cdref")
+        g = mk(t, KEY_CDREF)
+        g.lines += ["ctx 0 heapz 0", "ctx 1 heapz 0"]
+        g.lines += t.lines(0, 1001, sa=sa0 + dl, fresh=True)
+        g.lines += ["set 1 %d %d" % (P[k], v) for k, v in pp.items()]
+        g.lines += ["loada 1 %d %d %d" % (d[0], dl, sa0), "F 1 1002 %d %d %d 0 0 c2 0" % (src[0], src[1], sa0 + dl)]
+        g.variants = [(1001, "ref", "eq", dict(ctx="heapz", hist=[])), (1002, "byref-dict-adjacent-switch-on", "eq", dict(ctx="heapz", hist=["contig-cdict"]))]
+    # (5) random walks over the advanced API (no reset between the calls unless drawn): only the lock-step with
+    #     Det/ApiState.v, the round trips and "no crash" are checked - there is no fresh-context counterpart of a walk
+    smalls = [i for i in inputs if 300 <= i[1] <= 10000]
+    for rep in range(8 if quick else 80):
+        src = rng.choice(smalls)
+        t = Target("c2", src, params={}, bias="r2-apiwalk")
+        g = mk(t, "api-walk")
+        g.lines[g.lines.index("trace 0")] = "trace 1"
+        d0 = rng.choice(rawd)
+        g.lines += ["cdict 0 %d %d %d 1 0" % (d0[0], min(d0[1], 20000), rng.choice([1, 3, 6])), "ctx 0 %s 0" % rng.choice(["heap", "heapz"])]
+        fid = 1000
+        pending = False         # an abandoned streaming frame is open: a further "stream" frame would continue it
+        for i in range(rng.choice([20, 40, 60])):
+            r = rng.random()
+            x = rng.choice(smalls)
+            d = rng.choice(rawd)
+            if r < 0.15:
+                g.lines.append("set 0 %d %d" % (P["level"], rng.choice([1, 3, 5, 7])))
+            elif r < 0.2:
+                g.lines.append("setp 0 1 %d %d" % (P["level"], rng.choice([1, 3, 5])))
+            elif r < 0.3:
+                g.lines.append("load 0 %d %d %d 0" % (d[0], rng.choice([0, 5000, 20000]), rng.randint(0, 1)))
+            elif r < 0.38:
+                g.lines.append("refcdict 0 %d" % rng.choice([0, 0, -1]))
+            elif r < 0.48:
+                g.lines.append("prefix 0 %d %d" % (d[0], rng.choice([0, 3000, 20000])))
+            elif r < 0.58:
+                k = rng.choice([1, 1, 2, 3])
+                g.lines.append("reset 0 %d" % k)
+                if k != 2:
+                    pending = False
+            elif r < 0.7:
+                fid += 1
+                g.lines.append("F 0 %d %d %d 0 0 0 c2 0" % (fid, x[0], x[1]))
+                pending = False
+            elif r < 0.8:
+                fid += 1
+                k = rng.randint(1, x[1])
+                if pending:
+                    g.lines.append("reset 0 1")
+                    pending = False
+                g.lines.append("F 0 %d %d %d 0 0 0 stream 0 2 %d %d %d 2 1 %d" % (fid, x[0], x[1], k, rng.randint(0, 1), x[1] - k, rng.choice([1 << 30, 200])))
+            elif r < 0.86:
+                g.lines.append("A 0 %d %d %d" % (x[0], rng.randint(1, x[1]), rng.randint(0, 1)))
+                pending = True
+            elif r < 0.93:
+                fid += 1
+                g.lines.append("F 0 %d %d %d 0 0 0 cctx %d 0" % (fid, x[0], x[1], rng.choice([1, 3])))
+            else:
+                g.lines.append("G 0 %d %d" % (x[0], x[1]))
+                pending = False
     # (4) one-shot compression of tiny inputs with every capacity from the compressed size upwards
     t = Target("c2", (tiny[0][0], tiny[0][1], "tiny"), params={"level": 1}, bias="r2-rawfallback")
     g = mk(t, KEY_RAWFB)
@@ -1777,7 +1970,8 @@ def run_(ctx):
     try:
         n_ok = run_lockstep(ctx, model, per_group, report)
         n_ok2 = extra_lockstep(ctx, model, per_group, report)
-        log("lock-step: %d + %d model predictions matched" % (n_ok, n_ok2))
+        n_ok3 = r2_lockstep(ctx, model, results, report, rng)
+        log("lock-step: %d + %d + %d (round 2: API state, block emission) model predictions matched" % (n_ok, n_ok2, n_ok3))
     except Exception as e:
         viol.append(("crash", None, dict(what="lock-step failed to run", error=repr(e)), None))
 
